@@ -405,3 +405,96 @@ JUDGES = {
     "svrp": judge_svrp, "op": judge_op, "pctsp": judge_pctsp, "spctsp": judge_pctsp, "pdp": judge_pdp,
     "mtsp": judge_mtsp, "mtvrp": judge_mtvrp,
 }
+
+
+# ---------------------------------------------------------------- MDCPDP
+def judge_mdcpdp(inst, actions, cfg):
+    """Multi-depot capacitated pickup and delivery.  Nodes: 0..D-1 depots, then n/2 pickups, then n/2 deliveries
+    (pickup p pairs with delivery p + n/2).  A route is opened by the first visit of a depot and closed by
+    returning to that same depot; the last route's return is implicit (the episode ends on its last node).
+    cfg: dist_mode L1|L2, reward_mode minmax|minsum|lateness, problem_mode open|close."""
+    depots, locs = inst["depot"], inst["locs"]
+    D, n = len(depots), len(locs)
+    half = n // 2
+    nodes = list(depots) + list(locs)
+    caps = [int(c) for c in inst["capacity"]]
+    w = inst["lateness_weight"]
+    while isinstance(w, list):
+        w = w[0]
+    l1 = cfg.get("dist_mode", "L2") == "L1"
+    close = cfg.get("problem_mode", "close") == "close"
+
+    def d(a, b):
+        dx, dy = abs(nodes[a][0] - nodes[b][0]), abs(nodes[a][1] - nodes[b][1])
+        return dx + dy if l1 else math.hypot(dx, dy)
+
+    v = Verdict()
+    if len(caps) != D:
+        # the environment reads one capacity per depot; a different shape makes it mis-parse the instance
+        v.viol.append(("capacity_not_per_depot", NEG))
+        caps = (caps * D)[:D]
+    _once(v, [a for a in actions if a >= D], D, D + n)
+    length = [0.0] * D
+    arrive = {}
+    opened = []
+    cur_depot, in_route, carry, picked = None, False, 0, set()
+    prev = None
+    routes = []
+    for a in actions:
+        if not (0 <= a < D + n):
+            v.viol.append(("out_of_range", NEG))
+            continue
+        if a < D:
+            if in_route and a == cur_depot:
+                if carry > 0:
+                    v.viol.append(("return_while_carrying", NEG))
+                if close and prev is not None:
+                    length[cur_depot] += d(prev, a)
+                in_route = False
+            elif a not in opened:
+                if in_route:
+                    v.viol.append(("new_depot_before_return", NEG))
+                opened.append(a)
+                cur_depot, in_route, carry = a, True, 0
+                routes.append([])
+            else:
+                v.viol.append(("depot_revisited", NEG))
+        else:
+            if not in_route:
+                v.viol.append(("customer_outside_route", NEG))
+                prev = a
+                continue
+            length[cur_depot] += d(prev, a)
+            arrive[a] = length[cur_depot]
+            routes[-1].append(a)
+            if a < D + half:
+                carry += 1
+                picked.add(a)
+                if carry > caps[cur_depot]:
+                    v.viol.append(("carry_capacity", NEG))
+            else:
+                if (a - half) not in picked or (a - half) not in routes[-1]:
+                    v.viol.append(("delivery_before_pickup", NEG))
+                carry -= 1
+        prev = a
+    if in_route and prev is not None and prev >= D:
+        if carry > 0:
+            v.viol.append(("ends_while_carrying", NEG))
+        if close:
+            length[cur_depot] += d(prev, cur_depot)  # implicit final return
+    if sorted(opened) != list(range(D)):
+        v.viol.append(("depot_not_opened", NEG))
+    mode = cfg.get("reward_mode", "lateness")
+    if mode == "minmax":
+        cost = max(length)
+    elif mode == "minsum":
+        cost = sum(length)
+    else:
+        late = sum(arrive.get(x, 0.0) for x in range(D + half, D + n))
+        cost = sum(length) * (1 - w) + late * w
+    v.obj, v.terms = -cost, sum(length) + sum(arrive.values())
+    v.meta = {"routes": [r for r in routes if r], "lengths": length, "n_routes": len(routes)}
+    return v
+
+
+JUDGES["mdcpdp"] = judge_mdcpdp
